@@ -442,3 +442,8 @@ CLAIMS["C04"]["note"] += (" The QUIC transport's own listener (gating after the 
 
 CLAIMS["C01"]["text"] += (" Wire edits include frame/record INSERTION by the man in the middle: 1-3 attacker frames in front of every Noise XX message / TLS 1.3 handshake record and behind the last one, of every length class including the empty frame (Noise 00 00, TLS zero-length record), 1-2 bytes, the displaced frame's length +-1 and the framing maximum, enumerated per position and sampled; the receiver of such extended handshake data must not complete.")
 CLAIMS["C01"]["note"] += (" Inserted TLS ChangeCipherSpec/alert records (outside the TLS 1.3 transcript) and frames behind a side's last handshake frame are judged by the identity + no-garbage oracles only.")
+
+CLAIMS["C14"]["text"] += (" Overlapping trim calls (TrimOpenConns/ForceTrim in every order, 2-3 calls, the first one pinned inside its first CloseWithError or all pinned inside an UpsertTag callback) are each judged at their own return: own closes obey the rules of the call's kind, and when the count exceeded the low watermark at most low-watermark connections remain open among the peers eligible for that kind (for ForceTrim: all unprotected peers, grace ignored), whoever of the overlapping trims closed them.")
+CLAIMS["C14"]["note"] += (" The overlap window is pinned by harness callbacks plus a bounded number of scheduler yields; closes are attributed to a call by goroutine id (trims close on the caller's goroutine); a regular trim that joins a running trim and closes nothing itself is accepted.")
+CLAIMS["C18"]["text"] += (" TestTransportListenHistory also obtains the running transport's advertised address through Transport.AddCertHashes(bare /webtransport address) - the path used for observed, NAT-mapped and user-provided addresses - at every sampled instant, the first call before the first Listen, at the first listener, or after k rollovers; the address is held to the listener's own rules (it contains the hash of the certificate served now, and every address so obtained in the current or previous period verifies the certificate served now).")
+CLAIMS["C18"]["note"] += (" Only the transport-level AddCertHashes is exercised; the swarm and basic-host callers above it are not run.")
